@@ -11,8 +11,10 @@ use refmodel::canon;
 use refmodel::pda::Machine;
 use refmodel::RV;
 
-const KEYS: [&str; 15] = [
+const KEYS: [&str; 18] = [
     "", "a", "b", "aa", "\u{7f}", "\u{e9}", "\u{d7ff}", "\u{e000}", "\u{ffff}", "\u{10000}", "\u{10ffff}", "a\u{10000}", "a\u{e000}", "\r", "\u{20ac}",
+    // two supplementary characters that share their high surrogate, and a longer key with the same prefix
+    "\u{10001}", "\u{10000}b", "\u{10001}a",
 ];
 
 fn case_value(v: &RV) -> J {
